@@ -112,6 +112,8 @@ type Info struct {
 	At    time.Time
 	Owner string
 	Held  bool
+	// regs is the number of timers Owner had registered when this timer fired
+	regs int
 }
 
 // Pending lists unfired timers ordered by (At, ID).
@@ -124,7 +126,7 @@ func (c *Clock) Pending() []Info {
 func (c *Clock) pendingLocked() []Info {
 	out := []Info{}
 	for _, t := range c.timers {
-		out = append(out, Info{t.ID, t.At, t.Owner, t.held})
+		out = append(out, Info{ID: t.ID, At: t.At, Owner: t.Owner, Held: t.held})
 	}
 	sort.Slice(out, func(i, j int) bool {
 		if !out[i].At.Equal(out[j].At) {
@@ -150,7 +152,7 @@ func (c *Clock) Held() []Info {
 	out := []Info{}
 	for _, t := range c.timers {
 		if t.held {
-			out = append(out, Info{t.ID, t.At, t.Owner, true})
+			out = append(out, Info{ID: t.ID, At: t.At, Owner: t.Owner, Held: true})
 		}
 	}
 	sort.Slice(out, func(i, j int) bool { return out[i].ID < out[j].ID })
@@ -250,8 +252,7 @@ func (c *Clock) AdvanceSettle(d time.Duration, loops ...string) ([]Info, error) 
 	fired := c.advanceTo(target, func(fi Info) {
 		for _, l := range loops {
 			if strings.Contains(fi.Owner, l) {
-				// registrations so far by this exact owner, before firing, were captured in fi.ID ordering:
-				if e := c.waitNextFrom(fi.Owner, fi.ID); e != nil && err == nil {
+				if e := c.waitNextFrom(fi.Owner, fi.regs); e != nil && err == nil {
 					err = e
 				}
 				return
@@ -261,19 +262,21 @@ func (c *Clock) AdvanceSettle(d time.Duration, loops ...string) ([]Info, error) 
 	return fired, err
 }
 
-// waitNextFrom waits until a timer with ID > afterID and the same owner exists (or existed).
-func (c *Clock) waitNextFrom(own string, afterID int) error {
+// waitNextFrom waits until owner has registered more than regs timers, i.e.
+// the goroutine woken by the fired timer has armed its next one (timers are
+// fired one at a time, and every other loop of that owner is parked meanwhile).
+func (c *Clock) waitNextFrom(own string, regs int) error {
 	deadline := time.Now().Add(c.SettleTimeout)
 	stop := time.AfterFunc(c.SettleTimeout+10*time.Millisecond, func() { c.mu.Lock(); c.cond.Broadcast(); c.mu.Unlock() })
 	defer stop.Stop()
 	c.mu.Lock()
 	defer c.mu.Unlock()
 	for {
-		if c.lastID[own] > afterID {
+		if c.regCount[own] > regs {
 			return nil
 		}
 		if time.Now().After(deadline) {
-			return fmt.Errorf("vclock: %s did not re-arm after timer %d fired", own, afterID)
+			return fmt.Errorf("vclock: %s did not re-arm after its timer fired", own)
 		}
 		c.cond.Wait()
 	}
@@ -306,7 +309,7 @@ func (c *Clock) advanceTo(target time.Time, afterFire func(Info)) []Info {
 		c.timers = append(c.timers[:idx], c.timers[idx+1:]...)
 		next.fired = true
 		next.ch <- c.now
-		fi := Info{next.ID, next.At, next.Owner, next.held}
+		fi := Info{next.ID, next.At, next.Owner, next.held, c.regCount[next.Owner]}
 		c.mu.Unlock()
 		fired = append(fired, fi)
 		if afterFire != nil {
